@@ -173,18 +173,27 @@ func apiStorm(run *vk.Run, a childArgs) {
 	wg.Wait()
 	run.Eval(ops.Load())
 	run.Count("api_storm_ops", ops.Load())
-	expiryStorm(run, a)
+	// the expiry storm runs like C10's registry phase: joiners held for up to 3 ms in front of
+	// 60% of their lock operations (among them the one between the registry lookup and the
+	// insertion), sweepers at full speed; two rounds
+	vsync.SetPerturb(60)
+	vsync.SetMaxSleep(3000)
+	for round := 0; round < 2; round++ {
+		expiryStorm(run, a, round)
+	}
+	vsync.SetMaxSleep(200)
+	vsync.SetPerturb(a.Perturb)
 }
 
 // expiryStorm: idle groups (max-history-age 1 s) are registered 2 ms apart; two sweepers call
 // group.Update() all the time, and each group's only client arrives around the moment its
 // group becomes expirable: the registry's expiry (Update -> Delete) races with AddClient.
-func expiryStorm(run *vk.Run, a childArgs) {
-	n := 60
+func expiryStorm(run *vk.Run, a childArgs, round int) {
+	n := 120
 	names := make([]string, n)
 	created := make([]time.Time, n)
 	for i := range names {
-		names[i] = fmt.Sprintf("idle%d-%d", a.Index, i)
+		names[i] = fmt.Sprintf("idle%d-%d-%d", a.Index, round, i)
 		writeGroupFile(names[i], map[string]any{"max-history-age": 1, "wildcard-user": map[string]any{"password": map[string]any{"type": "wildcard"}, "permissions": "present"}})
 	}
 	for i, name := range names {
